@@ -20,10 +20,12 @@ Three pieces of src/sched/sched.c, src/stream.c, src/include/abti_pool.h that de
     pools (sched_create: ABTI_pool_retain per entry), freed (ABTI_sched_free: ABTI_pool_release per entry, an
     automatic pool is freed when the count reaches 0, a user-owned pool is kept), discarded
     (ABTI_sched_discard_and_free: freed only if the scheduler is automatic), used as / replaced as main
-    scheduler of a stream, for any sequence of these.
+    scheduler of a stream, for any sequence of these; and the request word of every scheduler object along the
+    same events (join / free set FINISH, a same-stream replacement sets REPLACE on the old scheduler, revive and
+    every attachment as main scheduler clear the word — the repair of F14).
 (c) `XS`: one stream's request plumbing: join / cancel requests, schedulers calling check_events, the
     replacement of the main scheduler (the main-scheduler ULT and its request word survive it, the new
-    scheduler starts with its own request word).
+    scheduler starts with a cleared request word).
 -/
 namespace ArgoVerif.Model.Stop
 open ArgoVerif
@@ -126,6 +128,9 @@ structure Acc where
   ns : PoolId → Int                  -- ABTI_pool.num_scheds
   scheds : List SchedRec             -- live scheduler objects
   main : List (StreamId × SchedId)   -- live streams, p_xstream->p_main_sched
+  req : SchedId → SchedReq           -- ABTI_sched.request of every scheduler object
+  joined : StreamId → Bool           -- the stream was joined and not revived (it does not run)
+  stale : SchedId → Bool             -- p_replace_sched / p_replace_waiter left over from an earlier replacement
 
 def poolLive (pools : List (PoolId × Bool)) (p : PoolId) : Bool := pools.any (fun q => q.1 == p)
 def poolAuto (pools : List (PoolId × Bool)) (p : PoolId) : Bool := pools.any (fun q => q.1 == p && q.2)
@@ -172,7 +177,9 @@ inductive AEv where
   | schedFree (k : SchedId)                             -- ABT_sched_free (requires NOT_USED)
   | streamCreate (x : StreamId) (k : SchedId)           -- xstream_create: k becomes the main scheduler
   | replace (x : StreamId) (k : SchedId)                -- main-scheduler replacement completed
-  | streamFree (x : StreamId)                           -- ABTI_xstream_free: main scheduler discarded
+  | streamFree (x : StreamId)                           -- ABT_xstream_free: join, main scheduler discarded
+  | join (x : StreamId)                                 -- ABT_xstream_join
+  | revive (x : StreamId)                               -- ABT_xstream_revive
   | stackPush (k : SchedId)                             -- ABT_pool_add_sched: used = IN_POOL
   | stackDone (k : SchedId)                             -- stacked scheduler terminated: discarded
 deriving DecidableEq, Repr
@@ -185,7 +192,8 @@ def astep (s : Acc) : AEv → Option Acc
     if poolLive s.pools p && occ s.scheds p == 0 then some { s with pools := dropPool s.pools p } else none
   | .schedCreate k ps a =>
     if (s.sched? k).isSome || !(ps.all (poolLive s.pools)) then none
-    else some { s with ns := retainAll s.ns ps, scheds := ⟨k, ps, a, .notUsed⟩ :: s.scheds }
+    else some { s with ns := retainAll s.ns ps, scheds := ⟨k, ps, a, .notUsed⟩ :: s.scheds,
+                       req := upd s.req k {}, stale := upd s.stale k false }
   | .schedFree k =>
     match s.sched? k with
     | some r => if r.used = .notUsed then some (freeSched s r) else none
@@ -193,24 +201,49 @@ def astep (s : Acc) : AEv → Option Acc
   | .streamCreate x k =>
     match s.main? x, s.sched? k with
     | none, some r =>
-      if r.used = .notUsed then some { s with scheds := setUsed s.scheds k .main, main := (x, k) :: s.main } else none
+      -- xstream_init_main_sched: the request word is cleared before `used = MAIN` (a reused scheduler brings nothing along)
+      if r.used = .notUsed then
+        some { s with scheds := setUsed s.scheds k .main, main := (x, k) :: s.main, req := upd s.req k {},
+                      joined := upd s.joined x false }
+      else none
     | _, _ => none
   | .replace x k =>
     match s.main? x, s.sched? k with
     | some o, some r =>
-      if r.used = .notUsed then
+      -- a running stream replaces through the REPLACE request of its current scheduler o (callback: REPLACE on o;
+      -- thread_main_sched_func: request of k cleared, k main, o discarded; o keeps its p_replace_sched); a joined stream
+      -- is changed directly (xstream_update_main_sched, second branch: request of k cleared, o keeps what it has).
+      -- A running stream whose scheduler still carries a p_replace_sched from an earlier life takes the "overwrite"
+      -- branch on a dangling pointer: not a behaviour of this model.
+      let waiting := !s.joined x
+      if r.used = .notUsed && !(waiting && s.stale o) then
+        let reqO : SchedReq := if waiting then { s.req o with replace := true } else s.req o
         let s1 : Acc := { s with scheds := setUsed s.scheds k .main,
-                                 main := (x, k) :: s.main.filter (fun m => m.1 != x) }
+                                 main := (x, k) :: s.main.filter (fun m => m.1 != x),
+                                 req := upd (upd s.req o reqO) k {},
+                                 stale := if waiting then upd s.stale o true else s.stale }
         match s1.sched? o with
         | some ro => some (discard s1 ro)
         | none => none
       else none
     | _, _ => none
+  | .join x =>
+    -- xstream_join: ABTI_sched_finish(main scheduler), then wait
+    match s.main? x with
+    | some o => some { s with req := upd s.req o (schedFinish (s.req o)), joined := upd s.joined x true }
+    | none => none
+  | .revive x =>
+    -- ABT_xstream_revive: request of the main scheduler cleared
+    match s.main? x with
+    | some o => if s.joined x then some { s with req := upd s.req o {}, joined := upd s.joined x false } else none
+    | none => none
   | .streamFree x =>
     match s.main? x with
     | some o =>
       match s.sched? o with
-      | some ro => some (discard { s with main := s.main.filter (fun m => m.1 != x) } ro)
+      -- ABT_xstream_free = xstream_join (FINISH on the main scheduler) + ABTI_xstream_free
+      | some ro => some (discard { s with main := s.main.filter (fun m => m.1 != x),
+                                          req := upd s.req o (schedFinish (s.req o)) } ro)
       | none => none
     | none => none
   | .stackPush k =>
@@ -222,7 +255,9 @@ def astep (s : Acc) : AEv → Option Acc
     | some r => if r.used = .inPool then some (discard s r) else none
     | none => none
 
-def ainit : Acc := { pools := [], ns := fun _ => 0, scheds := [], main := [] }
+def ainit : Acc :=
+  { pools := [], ns := fun _ => 0, scheds := [], main := [], req := fun _ => {}, joined := fun _ => false,
+    stale := fun _ => false }
 def amachine : Machine Acc AEv := { init := ainit, step := astep }
 
 /-! ### (c) one stream: requests, check_events, replacement of the main scheduler -/
@@ -257,7 +292,9 @@ def xstep (s : XS) : XEv → Option XS
     else some { s with pending := some k, req := upd s.req s.main { s.req s.main with replace := true } }
   | .replace =>
     match s.pending with
-    | some k => if (s.req s.main).replace then some { s with main := k, pending := none } else none
+    | some k =>
+      -- thread_main_sched_func: the new scheduler's request word is cleared before it becomes the main scheduler
+      if (s.req s.main).replace then some { s with main := k, pending := none, req := upd s.req k {} } else none
     | none => none
 
 /-- a stream whose schedulers carry arbitrary (possibly stale) request words -/
